@@ -78,12 +78,6 @@ theorem rfBlock_solves (e : ColEnv α) (hz : ∀ x, e.isZero x = true ↔ x = 0)
         obtain ⟨y, _, rfl⟩ := List.mem_map.1 hx
         exact hva _
 
-theorem zip_self_map {β : Type} (l : List Nat) (f : Nat × Nat → β) :
-    (l.zip l).map f = l.map fun r => f (r, r) := by
-  induction l with
-  | nil => rfl
-  | cons a l ih => simp [ih]
-
 /-- `_solve_freq_rb` with `incrb = "dva"` at `Ω ≠ 0`: `−Ω² M[rb,rb] d = F[rb]`, `v = iΩd`,
 `a = −Ω²d` (`frfRb_solves` for the whole block), with the mass absent (`m = None`: identity),
 a vector (reciprocal) or a matrix (LU solve), and the mass rows taken from the constructor state. -/
@@ -196,18 +190,6 @@ theorem elBlockUnc_solves (e : ColEnv α) (el : List Nat) (hnd : el.Nodup) (F : 
     obtain ⟨r, _, rfl⟩ := List.mem_map.1 hx
     simp only [frfUnc]
     exact ⟨by ring, by ring⟩
-
-theorem blockSum_ofFn (A : Nat → Nat → α) (idx : List Nat) (d : Fin idx.length → α)
-    (p : Fin idx.length) :
-    blockSum A idx (List.ofFn d) idx[p] = ∑ q : Fin idx.length, A idx[p] idx[q] * d q := by
-  have hz : idx.zip (List.ofFn d) = (List.finRange idx.length).map fun q => (idx[q], d q) := by
-    apply List.ext_getElem
-    · simp
-    · intro k h1 h2
-      simp
-  unfold blockSum
-  rw [hz, List.map_map, Fin.sum_univ_def]
-  rfl
 
 /-- `_solve_freq_coup`, elastic block: from the eigen-decomposition specification of the state
 matrix of the *elastic block* (as in `frfCoupled_solves`, now on the rows `kdof` of the full-size
